@@ -75,23 +75,28 @@ def with_restarts(rng, h, every):
 def check(run, prop):
     run.rule = ("histories over the op alphabet {Add(channel,priority,id?,timeout?), StartPull(conn,channels), RunLoop, "
                 "Finish(conn,id,result,error in {None,'','boom','timeout','killed'}), Kill, Tick(dt), Disconnect, Choice(k), Wait, "
-                "Info, SetInfo, Stats%s}: corpus, then random histories of length 3..12 over 2-3 channels, 3-4 worker connections, "
+                "Info, SetInfo, Stats, Advance(dt) = the clock moves and timed waits expire but the handletimeouts sweep has not run%s}: "
+                "corpus, then random histories of length 3..12 over 2-3 channels, 3-4 worker connections, "
                 "auto and client ids; thorough adds a breadth-first exploration of the model's state graph over the property's "
                 "bounded alphabet (2 channels, <=4 jobs, 3 workers, symmetry-reduced: workers/ids/channels in first-use order; "
                 "Choice only when >=2 pullers are blocked), one history per (distinct model state, op) pair. distinct = distinct "
                 "history text; non-trivial = the run contains a delivery and a RunLoop, a died connection or a restart"
-                % (", R = pickle round trip of the db" if prop == "C18" else ""))
+                % (", Drop(ids) = rpc_qdrop, Watchdog = dropdead, R = pickle round trip of the db" if prop == "C18" else ""))
     run.trusted = ["Coq 8.16.1 kernel (coqc); vm_compute in the Examples only",
                    "extraction (ExtrOcamlBasic directives only) + ocaml/c16/driver.ml (printing, parsing, enum alphabet)",
                    "hand-written model coq/C16/Model.v of jobs.py/qserve.py/rpcserver connection life cycle; tie = differential run after every op",
                    "gevent (hub FIFO callback order, AsyncResult/Event/kill semantics): exercised, modelled only as the explicit FIFO s_hub",
-                   "harness vt/harness/c16_impl.py: in-hub driver, snapshot/canonicalisation code, AsyncResult subclass that records its owner, patched random.choice/time.time in qs.jobs",
+                   "harness vt/harness/c16_impl.py: in-hub driver, snapshot/canonicalisation code, AsyncResult subclass that records its owner, patched random.choice/time.time in qs.jobs, "
+                   "Event subclass whose wait(timeout=t) expires on the virtual clock (wait() without timeout is gevent's own)",
                    "pickle (C18)"]
     run.assumptions = ["client supplied job ids are strings (an integer id given by a client can collide with a server-chosen serial: outside the alphabet)",
                        "priorities are non-negative integers; one request at a time per connection",
                        "the socket/JSON layer of rpcserver.py is represented by: disconnect = kill(block=False) of the handler greenlet, then shutdown() in its finally",
-                       "dropjobs/dropdead (Drop, Watchdog) are outside the alphabet",
-                       "the model contains the two proposed patches /verif/fixes/C16-repush-done.diff and /verif/fixes/C17-counters.diff"]
+                       "rpc_qdrop/dropdead (Drop, Watchdog) are modelled and tied, but generated only for C18 (outside C16/C17's alphabets); the Coq theorems about "
+                       "ids (C16_conservation's id2job conjunct, C17 delivery/finality) are stated for histories without Drop: with Drop + kill + re-add of the same id, "
+                       "waitjobs' `del id2job[j.jobid]` forgets the NEW job (real code and model agree; monitor 'addressable' skips exactly that case; "
+                       "proposed fix /verif/fixes/C16-drop-deletes-readded.diff)",
+                       "when several clients wait on the same DROPPED job, which of them gets the job and which the KeyError is not compared (event link order)"]
     src = core.snapshot(need_ext=False)
     run.check_proofs(prop, dirs=PROOF_DIRS[prop])
     exe = build()
@@ -99,9 +104,9 @@ def check(run, prop):
     quick = run.tier == "quick"
     hs = corpus(prop)
     ncorpus = len(hs)
-    nrand = 12000 if quick else 120000
+    nrand = 40000 if quick else 400000
     if prop == "C18":
-        nrand = 5000 if quick else 20000
+        nrand = 20000 if quick else 60000
     enum_info = None
     if not quick:
         mode, depth = ("small", 5) if prop == "C16" else ("full", 4)
